@@ -19,13 +19,13 @@ def _task(T, name, warm, props, shard):
     solver_task(T, name, warm, props, shard)
 
 
-NSHARD = {'C01': 6, 'C05': 2, 'C17': 3, 'C03': 1}
+NSHARD = {'C01': 6, 'C05': 2, 'C17': 3, 'C03': 1, 'C16': 1}
 
 
 for _n in SOLVERS:
     for _w in (False, True):
-        for _p in ('C01', 'C05', 'C17', 'C03'):
-            if _p == 'C05' and not _w:
+        for _p in ('C01', 'C05', 'C17', 'C03', 'C16'):
+            if (_p == 'C05' and not _w) or (_p == 'C16' and _n != 'AndersonCD'):
                 continue
             for _s in range(NSHARD[_p]):
                 add_task(_p, f'solvers:{_n}._solve[{"warm" if _w else "cold"}]', _task, name=_n, warm=_w, props=(_p,),
